@@ -149,6 +149,7 @@ func c03Cases(tier string, seed int64) []core.Case {
 			}})
 		}
 	}
+	cases = append(cases, sharedFlushCases("C03", tier)...)
 	return cases
 }
 
